@@ -163,7 +163,9 @@ func main() {
 	budget := flag.Duration("budget", 0, "wall-clock budget for generation (default 150s quick, 25m thorough)")
 	flag.Parse()
 	go watchdog(90 * time.Second)
-	log.SetOutput(io.Discard) // the library logs dropped connections; keep the channel to ./check clean
+	if os.Getenv("VERIF_LOG") == "" {
+		log.SetOutput(io.Discard) // the library logs dropped connections; keep the channel to ./check clean
+	}
 	pr, ok := props[*prop]
 	if !ok {
 		fmt.Fprintln(os.Stderr, "unknown property", *prop)
